@@ -390,7 +390,7 @@ impl QosPolicies {
     // check Ownership:
     // offered kind == requested kind
     if let (Some(off), Some(req)) = (self.ownership, other.ownership) {
-      if off != req {
+      if std::mem::discriminant(&off) != std::mem::discriminant(&req) {
         return Some(QosPolicyId::Ownership);
       }
     }
